@@ -537,3 +537,73 @@ async fn f5_crash_between_log_and_index_append_reuses_offsets() {
         "F5: offsets {first_new}.. were assigned again although the log still holds the old messages 10..19 (polled offsets {offs:?})"
     );
 }
+
+/// F13 — C04 `[C04.publish]`, C02 (what is polled is what was stored), C16 (sizes equal what is stored).
+/// One save whose batch is larger than tokio's per-write buffer (2 MiB): `write_vectored` copies at most
+/// 2 MiB and reports how much it took; the writer ignores the count, so the log file is shorter than the
+/// size that is published to readers and recorded in the index. 3 messages of 1 MiB each, saved at once.
+#[tokio::test]
+async fn f13_batch_larger_than_one_write_is_truncated_on_disk() {
+    f13(iggy::confirmation::Confirmation::Wait).await;
+}
+
+/// F13, the background persister (`server_confirmation = no_wait`) has the same single `write_vectored`.
+#[tokio::test]
+async fn f13_batch_larger_than_one_write_is_truncated_on_disk_no_wait() {
+    f13(iggy::confirmation::Confirmation::NoWait).await;
+}
+
+async fn f13(confirmation: iggy::confirmation::Confirmation) {
+    let dir = TempDir::new().unwrap();
+    let config = Arc::new(SystemConfig {
+        path: dir.path().to_str().unwrap().to_string(),
+        cache: CacheConfig {
+            enabled: false,
+            ..Default::default()
+        },
+        partition: PartitionConfig {
+            messages_required_to_save: 3,
+            ..Default::default()
+        },
+        segment: SegmentConfig {
+            size: IggyByteSize::from(HUGE_SEGMENT),
+            server_confirmation: confirmation,
+            ..Default::default()
+        },
+        ..Default::default()
+    });
+    let mut p = new_partition(config.clone(), true).await;
+    p.persist().await.unwrap();
+    let big: Vec<iggy::messages::send_messages::Message> = (0..3u128)
+        .map(|i| {
+            iggy::messages::send_messages::Message::new(
+                Some(i + 1),
+                bytes::Bytes::from(vec![b'a' + i as u8; 1024 * 1024]),
+                None,
+            )
+        })
+        .collect();
+    let size = batch_size(&big);
+    p.append_messages(
+        server::streaming::batching::appendable_batch_info::AppendableBatchInfo::new(size, 1),
+        big,
+        None,
+    )
+    .await
+    .expect("append_messages"); // 3 >= messages_required_to_save: saved to disk in one batch
+    let log_path = p.get_segments()[0].log_path.clone();
+    let published = p.get_segments()[0].size_bytes.as_bytes_u64();
+    p.flush_unsaved_buffer(true).await.unwrap();
+    tokio::time::sleep(std::time::Duration::from_millis(500)).await;
+    let on_disk = std::fs::metadata(&log_path).unwrap().len();
+    assert!(
+        on_disk >= 3 * 1024 * 1024,
+        "F13: the segment reports {published} bytes but its log file holds {on_disk}: the batch was cut at tokio's 2 MiB write buffer"
+    );
+    let polled = p.get_messages_by_offset(0, 3).await.unwrap();
+    assert_eq!(offsets(&polled), range(0, 2), "F13: stored messages must be readable back");
+    for (i, m) in polled.iter().enumerate() {
+        assert_eq!(m.payload.len(), 1024 * 1024, "F13: payload {i} length");
+        assert!(m.payload.iter().all(|b| *b == b'a' + i as u8), "F13: payload {i} content");
+    }
+}
